@@ -13,21 +13,22 @@ EXTENDS Integers, Sequences, FiniteSets, TLC, Json
 CONSTANTS
   DEV_NilDerefs,      \* subset of {"nfci","pdu","plmn","requnit","rparam"}: members dereferenced unguarded
   DEV_CreateNoDefer,  \* TRUE: create unlocks manually on each return path, so a panic leaves the lock held
-  Eps, Supis, Nfcis, Plmns, Pdus, Usages, Trigs, Rparams, Priors, EmitOneIn
+  Eps, Supis, Nfcis, Plmns, Pdus, Usages, Trigs, Rparams, Priors, Notifys, EmitOneIn
 
 VARIABLES shape, phase, locked, known, out, fol
 vars == <<shape, phase, locked, known, out, fol>>
 
-Mk(e, s, n, p, d, u, t, r, pr) ==
-  [ep |-> e, supi |-> s, nfci |-> n, plmn |-> p, pdu |-> d, usage |-> u, trig |-> t, rparam |-> r, prior |-> pr]
+Mk(e, s, n, p, d, u, t, r, pr, nf) ==
+  [ep |-> e, supi |-> s, nfci |-> n, plmn |-> p, pdu |-> d, usage |-> u, trig |-> t, rparam |-> r, prior |-> pr,
+   notify |-> nf]     \* whether the (prior or probed) create registers a notification URI
 \* only the members an endpoint reads vary for it (keeps the enumeration free of duplicates)
 Shapes ==
-  (IF "create" \in Eps THEN {Mk("create", s, n, p, d, u, "none", "u_1", pr) :
-       s \in Supis, n \in Nfcis, p \in Plmns, d \in Pdus, u \in Usages \cap {"none", "offline"}, pr \in Priors} ELSE {})
-  \cup {Mk(e, s, "present", "absent", "absent", u, t, "u_1", pr) :
+  (IF "create" \in Eps THEN {Mk("create", s, n, p, d, u, "none", "u_1", pr, nf) :
+       s \in Supis, n \in Nfcis, p \in Plmns, d \in Pdus, u \in Usages \cap {"none", "offline"}, pr \in Priors, nf \in Notifys} ELSE {})
+  \cup {Mk(e, s, "present", "absent", "absent", u, t, "u_1", pr, "present") :
        e \in Eps \cap {"update", "release"}, s \in Supis, u \in Usages, t \in Trigs, pr \in Priors}
-  \cup (IF "recharge" \in Eps THEN {Mk("recharge", s, "present", "absent", "absent", "none", "none", r, pr) :
-       s \in Supis, r \in Rparams, pr \in Priors} ELSE {})
+  \cup (IF "recharge" \in Eps THEN {Mk("recharge", s, "present", "absent", "absent", "none", "none", r, pr, nf) :
+       s \in Supis, r \in Rparams, pr \in Priors, nf \in Notifys} ELSE {})
 
 ImsiLike(s) == s.supi \in {"imsi", "imsiempty", "slash"}     \* has the "imsi-" prefix
 
